@@ -1274,14 +1274,14 @@ func handleAction(c *webClient, a any) error {
 		id := c.Id()
 		user := c.Username()
 		d := c.Data()
+		// this must be done synchronously, so that successive
+		// changes and the client's departure are seen in order
 		clients := g.GetClients(nil)
-		go func(clients []group.Client) {
-			for _, cc := range clients {
-				cc.PushClient(
-					g.Name(), "change", id, user, perms, d,
-				)
-			}
-		}(clients)
+		for _, cc := range clients {
+			cc.PushClient(
+				g.Name(), "change", id, user, perms, d,
+			)
+		}
 	case kickAction:
 		return group.KickError{
 			a.id, a.username, a.message,
@@ -1979,14 +1979,14 @@ func handleClientMessage(c *webClient, m clientMessage) error {
 			user := c.Username()
 			perms := c.Permissions()
 			data = c.Data()
-			go func(clients []group.Client) {
-				for _, cc := range clients {
-					cc.PushClient(
-						g.Name(), "change",
-						id, user, perms, data,
-					)
-				}
-			}(g.GetClients(nil))
+			// this must be done synchronously, so that successive
+			// changes and the client's departure are seen in order
+			for _, cc := range g.GetClients(nil) {
+				cc.PushClient(
+					g.Name(), "change",
+					id, user, perms, data,
+				)
+			}
 		default:
 			return group.UserError("unknown user action")
 		}
